@@ -52,6 +52,7 @@ type C09Case struct {
 	Only      *FaultSpec `json:"only,omitempty"`
 	TmpMount  bool       `json:"tmp_is_own_filesystem,omitempty"` // /tmp on a tmpfs: renames from there into $HOME fail with EXDEV
 	Sched     []uint16   `json:"sched,omitempty"`                 // schedule vector of every process of the case
+	Link      string     `json:"notebook_is_link,omitempty"`      // "rel" / "abs": the notebook path is a symbolic link to the real file
 }
 
 func genC09(rt *rapid.T) C09Case {
@@ -78,6 +79,9 @@ func genC09(rt *rapid.T) C09Case {
 	if rapid.Bool().Draw(rt, "hassched") {
 		c.Sched = genSchedule(rt, 40)
 	}
+	if !c.NBMissing && rapid.IntRange(0, 2).Draw(rt, "linked") == 0 {
+		c.Link = rapid.SampledFrom([]string{"rel", "abs"}).Draw(rt, "linkkind")
+	}
 	return c
 }
 
@@ -99,6 +103,7 @@ func (c *C09Case) preState() *pworld {
 			}
 		}
 		w.disk.WriteRaw(pNotebook, yamlOf(nb), 0o644)
+		linkNotebook(w.disk, c.Link)
 	}
 	if c.HistoryN > 0 {
 		simtime.Install(time.Unix(0, w.clockNS))
@@ -280,6 +285,24 @@ func runC09(c C09Case) *Outcome {
 	if isSave && !strings.Contains(string(ref.Stdout), "saved successfully!") {
 		o.Skip = true // the target itself is rejected (duplicate flags etc.): nothing to enumerate
 		return o
+	}
+	if isSave && newNB == oldNB {
+		// "a save that did not fully take effect reports failure": this one reported success; did it take effect?
+		// (re-saving an entry exactly as it is stored leaves the bytes alone - then the command is in the notebook)
+		cmds, lerr := loadNotebookFrom(ref.Disk, pNotebook)
+		want := unq(c.Target.Command)
+		if c.Target.Kind == "resave" && len(c.Notebook) > 0 && !c.NBMissing {
+			want = c.Notebook[c.Target.Target%len(c.Notebook)].Command
+		}
+		found := false
+		for _, cm := range cmds {
+			if cm.Command == want {
+				found = true
+			}
+		}
+		if lerr != nil || !found {
+			return fail("success-without-effect", "without any fault the step reports success, but the notebook is byte for byte what it was and does not hold the command %q", want)
+		}
 	}
 	// 2. the fault space of this step
 	thorough := *flagTier == "thorough"
@@ -542,8 +565,8 @@ func (c *C09Case) followUp(w *pworld, res *NodeResult, tag string, spec FaultSpe
 		if !(strings.HasPrefix(p, "/home/u/.config/cmd-finder/") || strings.HasPrefix(p, "/home/u/.config/wtf/")) {
 			continue
 		}
-		if p == pNotebook || p == pHistory {
-			continue
+		if p == pNotebook || p == pHistory || p == res.Disk.ResolveRaw(pNotebook) || p == res.Disk.ResolveRaw(pHistory) || p == w.disk.ResolveRaw(pNotebook) {
+			continue // the files themselves, and what a linked notebook points (or pointed) to
 		}
 		clean.RemoveRaw(p)
 		strays++
